@@ -164,6 +164,8 @@ func (m *baseMocker) callback(args []reflect.Value) (results []reflect.Value) {
 func (m *baseMocker) Cancel() {
 	if m.guard != nil {
 		m.guard.Cancel()
+		// 已经还原过的 guard 不能再次还原: 否则会覆盖其他 builder 之后对同一函数的 mock
+		m.guard = nil
 	}
 	m.when = nil
 	m.origin = nil
